@@ -5,7 +5,7 @@ Lean: lean/N0Verif/Model/Esc.lean, Proofs/Esc.lean, Props/C17.lean, Drv/Esc.lean
 B streams: esc.split (random + exhaustive small scope), esc.spec (the Python transcription of the
   specification against Lean's `splitSpec`), esc.dlist, esc.kv, esc.ddict, esc.ser, esc.unesc, esc.rt
 C evaluators: split = one-pass specification, no-escape = plain split, totality, independence of
-  neighbours, join round trip, flat mapping round trip, nested mappings serialise, default value,
+  neighbours, join round trip, key=value (first tag splits), flat mapping round trip, reserved characters protected, nested mappings serialise, default value,
   INI round trip (load_ini(save_file(m)) against a reference written from the statement)
 """
 import itertools
@@ -362,6 +362,22 @@ def check_dict_roundtrip(c):
     return None
 
 
+def check_protected(c):
+    """reserved characters in values are protected: the value part of every entry contains no
+    delimiter, equal tag, brace, bracket or quote, and a backslash only in front of `x`"""
+    sd = impl()[4]
+    d, eq = c["d"], c["eq"]
+    for k, v in c["m"].items():
+        r = core.call(sd, {k: v}, d, eq)
+        if r[0] != "ok" or not isinstance(r[1], str) or not r[1].startswith(k + eq):
+            return {"entry": [k, v], "got": list(r)}
+        ev = r[1][len(k + eq):]
+        bad = [ch for ch in ev if ch in '{}[]"' or ch in d or ch in eq]
+        if bad or any(ch == "\\" and ev[i + 1:i + 2] != "x" for i, ch in enumerate(ev)):
+            return {"entry": [k, v], "text": r[1], "unprotected": bad}
+    return None
+
+
 def check_nested(c):
     sd = impl()[4]
     r = core.call(sd, c["m"], c["d"], c["eq"], True, True, c.get("ck", 0), c.get("cv", 0))
@@ -383,6 +399,15 @@ def check_default(c):
     want = {c["item"]: c["dv"], "q": "1"} if c["item"] else {"q": "1"}
     if r != ("ok", want):
         return {"text": text, "got": list(r), "want": want}
+    return None
+
+
+def check_keyvalue(c):
+    """the first equal tag splits: key free of equal-tag characters, any value"""
+    kv = impl()[2]
+    r = core.call(kv, c["k"] + c["eq"] + c["v"], equal_tag=c["eq"], default_value=c.get("dv"))
+    if r != ("ok", (c["k"], c["v"])):
+        return {"got": list(r), "want": [c["k"], c["v"]]}
     return None
 
 
@@ -477,6 +502,7 @@ def ini_in_statement(m):
 EVALS = {
     "spec": check_spec, "plain": check_plain, "total": None, "independent": check_independent, "join": check_join,
     "dict_roundtrip": check_dict_roundtrip, "nested": check_nested, "default": check_default, "ini": check_ini,
+    "keyvalue": check_keyvalue, "protected": check_protected,
 }
 
 
@@ -532,9 +558,11 @@ VALID = {
     "independent": lambda c: c.get("d") and c.get("e") and len(c["e"]) == 1 and not c["d"].endswith(c["e"]) and run_len(c["e"], c["left"].split(c["d"])[-1]) % 2 == 0,
     "join": lambda c: c.get("d") and c.get("items") and all(all(ch not in c["d"] for ch in it) and (not c.get("e") or c["e"] not in it) for it in c["items"]) and (not c.get("e") or (len(c["e"]) == 1 and c["e"] not in c["d"])),
     "dict_roundtrip": _dict_valid,
-    "nested": lambda c: isinstance(c.get("m"), dict) and c.get("d") is not None and c.get("eq") is not None and no_none_in_lists(c["m"]),
+    "nested": lambda c: isinstance(c.get("m"), dict) and bool(c.get("d")) and bool(c.get("eq")) and no_none_in_lists(c["m"]),
     "default": lambda c: c.get("eq") and c.get("d") and c["eq"] not in c["item"] and all(ch not in c["item"] for ch in c["d"]) and not (set(c["d"]) & set("q1" + c["eq"])),
-    "ini": lambda c: isinstance(c.get("m"), dict) and ini_in_statement(c["m"]),
+    "ini": lambda c: isinstance(c.get("m"), dict) and c.get("eol") in ("\n", "\r\n") and ini_in_statement(c["m"]),
+    "protected": lambda c: _dict_valid(c),
+    "keyvalue": lambda c: c.get("eq") and isinstance(c.get("k"), str) and isinstance(c.get("v"), str) and all(ch not in c["eq"] for ch in c["k"]),
 }
 
 
@@ -671,6 +699,14 @@ def run(ctx):
         item = "".join(rng.choice(["a", "k", " ", "\\", "x"]) for _ in range(rng.choice([0, 1, 2, 4])))
         dfl.append({"item": item, "eq": eq, "d": d, "dv": rng.choice([None, "", "DV", "0"])})
     ctx.evaluate("default", dfl, check_default)
+    kvc = []
+    for _ in range(n // 4):
+        eq = rng.choice(EQS)
+        k = "".join(rng.choice(["a", "k", " ", "\\", "x", ";"]) for _ in range(rng.choice([0, 1, 2, 4])))
+        v = "".join(rng.choice(["a", "v", " ", eq, eq, ";", "\\"]) for _ in range(rng.choice([0, 1, 2, 4, 7])))
+        if all(ch not in eq for ch in k):
+            kvc.append({"k": k, "eq": eq, "v": v, "dv": rng.choice([None, "DV"])})
+    ctx.evaluate("keyvalue", kvc, check_keyvalue, nontrivial=lambda c: c["eq"] in c["v"])
     # ---- B5: serialize_dict
     rng = ctx.rng("ser")
     sers = []
@@ -711,6 +747,7 @@ def run(ctx):
                 for ch in RESERVED + list(d) + list(eq) + ["\t", "\n", "\r", "\x00", "\x7f", "a", "'"]:
                     dr.append({"m": {"k": ch, "j": "a" + ch + ch + "b"}, "d": d, "eq": eq})
     ctx.evaluate("dict_roundtrip", dr, check_dict_roundtrip, in_known=known_e, nontrivial=lambda c: len(c["m"]) > 0)
+    ctx.evaluate("protected", [c for c in dr if not non_ascii_case(c)], check_protected, nontrivial=lambda c: len(c["m"]) > 0)
     # ---- C: nested mappings serialise
     rng = ctx.rng("nested")
     ns = []
